@@ -33,12 +33,14 @@ Fixpoint dropi_from (k : Z) (dims sx : list Z) : list Z :=
 Definition outshape (sx dims : list Z) (keepdim : bool) : list Z := if keepdim then kshape sx dims else dropi_from 0%Z dims sx.
 Definition qsum (l : list Q) : Q := fold_left (fun a b => Qred (a + b)) l 0.
 Definition map2z (a b : list Z) : list Z := map (fun p => (fst p + snd p)%Z) (combine a b).
+(* flat positions (in x) of the elements reduced into output position oflat *)
+Definition red_indices (sx dims : list Z) (oflat : Z) : list Z :=
+  let ks := kshape sx dims in let rs := rshape sx dims in
+  let oi := unravel ks oflat in
+  map (fun rflat => ravel sx (map2z oi (unravel rs rflat))) (zrange (numel rs)).
 (* torch.sum(value, dim, keepdim): out[o] = sum over the reduced sub-box *)
 Definition reduce_sum (sx dims : list Z) (vals : list Q) : list Q :=
-  let ks := kshape sx dims in let rs := rshape sx dims in
-  map (fun oflat => let oi := unravel ks oflat in
-         qsum (map (fun rflat => znth 0 vals (ravel sx (map2z oi (unravel rs rflat)))) (zrange (numel rs))))
-      (zrange (numel ks)).
+  map (fun oflat => qsum (map (znth 0 vals) (red_indices sx dims oflat))) (zrange (numel (kshape sx dims))).
 (* number of reduced elements (torch.mean) *)
 Definition nred (sx dims : list Z) : Z := numel (rshape sx dims).
 (* ElementaryFunctional._divide_by_n: math.prod(shape[i] for i in self.dim), python indexing *)
